@@ -160,4 +160,180 @@ theorem fast_eq (im : Image) (xmin ymin xmax ymax : Int) (fx fy : Rat)
 theorem cubicEvalMax_witness : cubicEvalMax (2395 / 100) = 241 / 10 := by
   decide +kernel
 
+/-! ### `reverse_line_mapping` -/
+
+theorem pyGet_zero (xs : List Rat) : pyGet xs 0 = xs.head? := by
+  simp [pyGet, List.head?_eq_getElem?]
+
+theorem pyGet_neg_one (xs : List Rat) (h : xs ≠ []) : pyGet xs (-1) = xs.getLast? := by
+  have hp : 0 < xs.length := List.length_pos_iff.mpr h
+  unfold pyGet
+  rw [if_neg (by omega), if_pos (by omega), List.getLast?_eq_getElem?]
+  congr 1
+  omega
+
+theorem advance_head_zero (F : List Rat) (t : Rat) (hF0 : F.head? = some 0) (ht : 0 ≤ t) (fuel : Nat) :
+    advance F t (fuel + 1) 0 = some 0 := by
+  rw [List.head?_eq_getElem?] at hF0
+  simp [advance, hF0, not_lt.mpr ht]
+
+theorem chord_algebra (t L x0 xl : Rat) (hL : L ≠ 0) :
+    (1 - (t - L) / (0 - L)) * xl + (t - L) / (0 - L) * x0 = x0 + t / L * (xl - x0) := by
+  field_simp
+  ring
+
+theorem reverseStep_chord (F X : List Rat) (L x0 xl t : Rat) (hF0 : F.head? = some 0)
+    (hFl : F.getLast? = some L) (hx0 : X.head? = some x0) (hxl : X.getLast? = some xl)
+    (hL : L ≠ 0) (ht : 0 ≤ t) :
+    reverseStep F X 0 t = some (0, x0 + t / L * (xl - x0)) := by
+  have hFne : F ≠ [] := by intro h; simp [h] at hF0
+  have hXne : X ≠ [] := by intro h; simp [h] at hx0
+  unfold reverseStep
+  rw [advance_head_zero F t hF0 ht]
+  simp only [Option.bind_eq_bind, Option.bind_some, Nat.cast_zero, Int.zero_sub]
+  rw [pyGet_zero, pyGet_neg_one F hFne, pyGet_zero, pyGet_neg_one X hXne, hF0, hFl, hx0, hxl]
+  simp only [Option.bind_some]
+  rw [chord_algebra t L x0 xl hL]
+
+theorem reverseGo_chord (F X : List Rat) (L x0 xl : Rat) (hF0 : F.head? = some 0)
+    (hFl : F.getLast? = some L) (hx0 : X.head? = some x0) (hxl : X.getLast? = some xl)
+    (hL : L ≠ 0) (ts : List Rat) (hts : ∀ t ∈ ts, 0 ≤ t) :
+    reverseGo F X 0 ts = some (ts.map fun t => x0 + t / L * (xl - x0)) := by
+  induction ts with
+  | nil => rfl
+  | cons t rest ih =>
+    have ht : 0 ≤ t := hts t (by simp)
+    have ih' := ih (fun u hu => hts u (by simp [hu]))
+    simp only [reverseGo, reverseStep_chord F X L x0 xl t hF0 hFl hx0 hxl hL ht, ih', List.map_cons]
+
+
+theorem reverse_chord (F' ts X : List Rat) (hF : F' ≠ []) (hlen : X.length = F'.length + 1)
+    (hL : F'.getLast hF ≠ 0) (hts : ∀ t ∈ ts, 0 ≤ t) :
+    ∃ x0 xl, X.head? = some x0 ∧ X.getLast? = some xl ∧
+      reverseLineMapping (0 :: F') ts X = some (ts.map fun t => x0 + t / (F'.getLast hF) * (xl - x0)) := by
+  have hX : X ≠ [] := by intro h; simp [h] at hlen
+  refine ⟨X.head hX, X.getLast hX, List.head?_eq_some_head hX, List.getLast?_eq_some_getLast hX, ?_⟩
+  unfold reverseLineMapping
+  refine reverseGo_chord (0 :: F') X _ _ _ rfl ?_ (List.head?_eq_some_head hX) (List.getLast?_eq_some_getLast hX) hL ts hts
+  rw [List.getLast?_cons_of_ne_nil hF, List.getLast?_eq_some_getLast hF]
+
+/-! ### the grid of a straight baseline -/
+
+theorem linspace_length' (a b : Rat) (n : Nat) : (linspace a b n).length = n := by
+  unfold linspace
+  split
+  · simp [*]
+  · split <;> simp [*]
+
+theorem linspace_nonneg (L : Rat) (hL : 0 ≤ L) (n : Nat) : ∀ t ∈ linspace 0 L n, 0 ≤ t := by
+  intro t ht
+  unfold linspace at ht
+  split at ht
+  · simp at ht
+  · split at ht
+    · simp at ht; rw [ht]
+    · rename_i h0 h1
+      simp only [List.mem_map, List.mem_range] at ht
+      obtain ⟨i, _, rfl⟩ := ht
+      have hn : (2 : Rat) ≤ (n : Rat) := by exact_mod_cast (show 2 ≤ n by omega)
+      have hi : (0 : Rat) ≤ (i : Rat) := Nat.cast_nonneg i
+      have : 0 ≤ (L - 0) * (i : Rat) / ((n : Rat) - 1) :=
+        div_nonneg (mul_nonneg (by linarith) hi) (by linarith)
+      linarith
+
+theorem range_cast_head (n : Nat) (hn : 1 ≤ n) :
+    ((List.range n).map fun (i : Nat) => ((i : Nat) : Rat)).head? = some 0 := by
+  rw [List.head?_eq_getElem?]
+  simp [show 0 < n by omega]
+
+theorem range_cast_last (n : Nat) (hn : 1 ≤ n) :
+    ((List.range n).map fun (i : Nat) => ((i : Nat) : Rat)).getLast? = some ((n : Rat) - 1) := by
+  rw [List.getLast?_eq_getElem?]
+  simp [show n - 1 < n by omega]
+  rw [Nat.cast_sub hn]; simp
+
+theorem range_shift_head (left : Rat) (n : Nat) (hn : 1 ≤ n) :
+    ((List.range n).map fun (i : Nat) => left + ((i : Nat) : Rat)).head? = some left := by
+  rw [List.head?_eq_getElem?]
+  simp [show 0 < n by omega]
+
+theorem range_shift_last (left : Rat) (n : Nat) (hn : 1 ≤ n) :
+    ((List.range n).map fun (i : Nat) => left + ((i : Nat) : Rat)).getLast? = some (left + ((n : Rat) - 1)) := by
+  rw [List.getLast?_eq_getElem?]
+  simp [show n - 1 < n by omega]
+  rw [Nat.cast_sub hn]; simp
+
+/-- closed form of the straight grid -/
+theorem straightGrid_eq (R : Rot) (left y0 : Rat) (n : Nat) (h0 h1 : Rat) (H : Nat) (hn : 2 ≤ n) :
+    straightGrid R left y0 n h0 h1 H =
+      some ((linspace (-h0) h1 H).map fun v =>
+        ((linspace 0 ((n : Rat) - 1)
+            ((((n : Nat) : Rat) - 1) * ((H : Nat) : Rat) / (h0 + h1)).floor.toNat).map fun t => left + t).map
+          fun x => R.apply (x, y0 + v)) := by
+  have hne := natCast_sub_one_ne n hn
+  have hLnn : (0 : Rat) ≤ (n : Rat) - 1 := by
+    have : (2 : Rat) ≤ (n : Rat) := by exact_mod_cast hn
+    linarith
+  unfold straightGrid reverseLineMapping
+  simp only
+  rw [reverseGo_chord _ _ ((n : Rat) - 1) left (left + ((n : Rat) - 1))
+    (range_cast_head n (by omega)) (range_cast_last n (by omega))
+    (range_shift_head left n (by omega)) (range_shift_last left n (by omega)) hne _
+    (linspace_nonneg _ hLnn _)]
+  simp only
+  congr 2
+  funext v
+  congr 1
+  apply List.map_congr_left
+  intro t _
+  field_simp
+  ring
+
+
+theorem straightGrid_shape (R : Rot) (left y0 : Rat) (n : Nat) (h0 h1 : Rat) (H : Nat) (hn : 2 ≤ n) :
+    ∃ g, straightGrid R left y0 n h0 h1 H = some g ∧ g.length = H ∧
+      ∀ row ∈ g, row.length =
+        ((((n : Nat) : Rat) - 1) * ((H : Nat) : Rat) / (h0 + h1)).floor.toNat := by
+  refine ⟨_, straightGrid_eq R left y0 n h0 h1 H hn, ?_, ?_⟩
+  · rw [List.length_map, linspace_length']
+  · intro row hrow
+    simp only [List.mem_map] at hrow
+    obtain ⟨v, _, rfl⟩ := hrow
+    rw [List.length_map, List.length_map, linspace_length']
+
+theorem straightGrid_entry (R : Rot) (left y0 : Rat) (n : Nat) (h0 h1 : Rat) (H : Nat) (hn : 2 ≤ n)
+    (hH : 2 ≤ H) (count : Nat)
+    (hcount : count = ((((n : Nat) : Rat) - 1) * ((H : Nat) : Rat) / (h0 + h1)).floor.toNat)
+    (hc : 2 ≤ count) (g : List (List (Rat × Rat)))
+    (hg : straightGrid R left y0 n h0 h1 H = some g) (r c : Nat) (hr : r < H) (hcc : c < count) :
+    (g[r]?.bind fun row => row[c]?) =
+      some (R.apply (left + (((n : Nat) : Rat) - 1) * ((c : Nat) : Rat) / (((count : Nat) : Rat) - 1),
+                     y0 + (-h0 + (h1 - -h0) * ((r : Nat) : Rat) / (((H : Nat) : Rat) - 1)))) := by
+  rw [straightGrid_eq R left y0 n h0 h1 H hn, ← hcount] at hg
+  injection hg with hg
+  subst hg
+  rw [List.getElem?_map, linspace_get (-h0) h1 H hH r hr]
+  simp only [Option.map_some, Option.bind_some]
+  rw [List.getElem?_map, List.getElem?_map, linspace_get 0 _ count hc c hcc]
+  simp only [Option.map_some, sub_zero, zero_add]
+
+
+/-! ### the rotation back to page coordinates -/
+
+theorem rot_iso (R : Rot) (h : R.c * R.c + R.s * R.s = 1) (p q : Rat × Rat) :
+    ((R.apply p).1 - (R.apply q).1) * ((R.apply p).1 - (R.apply q).1) +
+      ((R.apply p).2 - (R.apply q).2) * ((R.apply p).2 - (R.apply q).2) =
+    (p.1 - q.1) * (p.1 - q.1) + (p.2 - q.2) * (p.2 - q.2) := by
+  simp only [Rot.apply]
+  have e : (p.1 * R.c - p.2 * R.s - (q.1 * R.c - q.2 * R.s)) * (p.1 * R.c - p.2 * R.s - (q.1 * R.c - q.2 * R.s)) +
+      (p.1 * R.s + p.2 * R.c - (q.1 * R.s + q.2 * R.c)) * (p.1 * R.s + p.2 * R.c - (q.1 * R.s + q.2 * R.c)) =
+      ((p.1 - q.1) * (p.1 - q.1) + (p.2 - q.2) * (p.2 - q.2)) * (R.c * R.c + R.s * R.s) := by ring
+  rw [e, h, mul_one]
+
+theorem rot_perp (R : Rot) (x y dx dy : Rat) :
+    ((R.apply (x + dx, y)).1 - (R.apply (x, y)).1) * ((R.apply (x, y + dy)).1 - (R.apply (x, y)).1) +
+      ((R.apply (x + dx, y)).2 - (R.apply (x, y)).2) * ((R.apply (x, y + dy)).2 - (R.apply (x, y)).2) = 0 := by
+  simp only [Rot.apply]
+  ring
+
 end Crop
